@@ -116,3 +116,73 @@ Theorem line_number_col src head l c :
 Proof.
   unfold line_number. intros H Hne Hl. eapply loop_col; eauto; [lia|]. intros E. contradiction.
 Qed.
+
+(** ** the upper half: the report is not after the first visible character *)
+(** LineNumber's own notion of "inside a -- comment" after a prefix of runes *)
+Definition flag_step (src : string) (comment : bool) (p : Z * N) : bool :=
+  let comment1 := if (snd p =? 45)%N
+                  then match byte_at src (fst p + 1) with Some b => if (b =? 45)%N then true else comment | None => comment end
+                  else comment in
+  if (snd p =? 10)%N then false else comment1.
+Definition flag_after (src : string) (rs : list (Z * N)) (comment : bool) : bool := fold_left (flag_step src) rs comment.
+
+Lemma loop_upper src head : forall pre comment loc line col l c k post,
+  line_number_loop src head (pre ++ k :: post) comment loc line col = Ok (l, c) ->
+  (head <= fst k)%Z -> is_space_rune (snd k) = false ->
+  flag_after src (pre ++ [k]) comment = false ->
+  (l <= line + 1 + count_nl pre)%Z.
+Proof.
+  induction pre as [|[i ch] pre IH]; intros comment loc line col l c [ik chk] post H Hk Hsp Hfl.
+  - cbn [app] in *. simpl in H. unfold flag_after in Hfl. cbn [fold_left] in Hfl. unfold flag_step in Hfl. cbn [fst snd] in *.
+    set (comment1 := if (chk =? 45)%N
+                     then match byte_at src (ik + 1) with Some b => if (b =? 45)%N then true else comment | None => comment end
+                     else comment) in *.
+    assert (E : (if (chk =? 45)%N
+                 then match byte_at src (ik + 1) with
+                      | Some b => Ok (if (b =? 45)%N then true else comment)
+                      | None => Ok comment
+                      end
+                 else Ok comment) = Ok comment1).
+    { unfold comment1. destruct (chk =? 45)%N; [|reflexivity]. destruct (byte_at src (ik + 1)); reflexivity. }
+    rewrite E in H. clear E.
+    assert (Hlt : (ik <? head)%Z = false) by (apply Z.ltb_ge; exact Hk). rewrite Hlt, Hsp, Hfl in H.
+    assert (Hnl : (chk =? 10)%N = false).
+    { destruct (chk =? 10)%N eqn:En; [|reflexivity]. apply space_nl in En. congruence. }
+    rewrite Hnl in H. inversion H; subst. simpl. lia.
+  - cbn [app] in *. simpl in H. unfold flag_after in Hfl. cbn [fold_left app] in Hfl. fold (flag_after src (pre ++ [(ik, chk)])) in Hfl.
+    unfold flag_step at 2 in Hfl. cbn [fst snd] in Hfl.
+    set (comment1 := if (ch =? 45)%N
+                     then match byte_at src (i + 1) with Some b => if (b =? 45)%N then true else comment | None => comment end
+                     else comment) in *.
+    assert (E : (if (ch =? 45)%N
+                 then match byte_at src (i + 1) with
+                      | Some b => Ok (if (b =? 45)%N then true else comment)
+                      | None => Ok comment
+                      end
+                 else Ok comment) = Ok comment1).
+    { unfold comment1. destruct (ch =? 45)%N; [|reflexivity]. destruct (byte_at src (i + 1)); reflexivity. }
+    rewrite E in H. clear E.
+    pose proof (count_nl_nonneg pre) as Hnn.
+    cbn [count_nl]. unfold is_nl. cbn [snd].
+    destruct (i <? head)%Z.
+    + eapply IH in H; eauto. destruct (ch =? 10)%N; lia.
+    + destruct (is_space_rune ch).
+      * eapply IH in H; eauto. destruct (ch =? 10)%N; lia.
+      * destruct (if (ch =? 10)%N then false else comment1) eqn:Ec.
+        -- eapply IH in H; eauto. destruct (ch =? 10)%N; lia.
+        -- inversion H; subst. destruct (ch =? 10)%N; lia.
+Qed.
+
+(** if some rune at or after the offset is neither white space nor inside a
+    `--` comment (as LineNumber sees comments), the reported line is not after
+    the line of that rune *)
+Theorem line_number_upper src head l c pre k post :
+  line_number src head = Ok (l, c) ->
+  runes src = pre ++ k :: post ->
+  (head <= fst k)%Z -> is_space_rune (snd k) = false ->
+  flag_after src (pre ++ [k]) false = false ->
+  (l <= 1 + count_nl pre)%Z.
+Proof.
+  unfold line_number. intros H Hr Hk Hsp Hfl. rewrite Hr in H.
+  pose proof (loop_upper src head pre false 0 0 0 l c k post H Hk Hsp Hfl) as Hu. lia.
+Qed.
